@@ -28,7 +28,7 @@ Footer == <<0>>
 Unwrap(b) ==
   IF ~Has(b, 1, 8) \/ b[1] # 128 \/ b[2] # 1 THEN [ok |-> FALSE]
   ELSE LET nl == RdBE32(b, 5) IN
-       IF nl < 0 \/ ~Has(b, 9, nl + 4 + 3 + 1) THEN [ok |-> FALSE]
+       IF nl < 0 \/ nl > Len(b) \/ ~Has(b, 9, nl + 4 + 3 + 1) THEN [ok |-> FALSE]
        ELSE [ok |-> TRUE, name |-> Sub(b, 9, nl), mt |-> b[4], seq4 |-> Sub(b, 9 + nl, 4),
              sid |-> RdBE16(b, 9 + nl + 4 + 1), ft |-> b[9 + nl + 4],
              body |-> SubSeq(b, 9 + nl + 4 + 3, Len(b) - 1)]
